@@ -69,7 +69,8 @@ ASSUME = [
     "hash texts are extracted from the outputs by regular expressions (no MATLAB exists here; C and JavaScript are not executed by this check); the MATLAB name is the sanitised name (leading '_' and digits stripped)",
     "the C header deliberately omits core definitions, so core messages are compared in the Python, JavaScript and MATLAB outputs only",
     "Client internals _sock and _connected are set directly to attach the client to a socketpair (documented private poke, as in Engine D)",
-    "send_signal takes a bare message id and cannot know a hash; only send_message is covered by (e); the version field of send_signal headers and of classes without type_hash is a don't-care",
+    "send_signal(id) is covered for ids of signal definitions known to the process (a registered payload-free class): the header must carry that definition's hash as send_message of an instance does; for ids without a definition, or whose definition has a payload, and for classes without type_hash the version field is a don't-care",
+    "messages originated by the manager process itself (ACKNOWLEDGE, FAILED_MESSAGE, CLIENT_INFO, ...) are not covered here: C13 is checked on the compiler and on the client API that applications send with",
     "the hand-written classes of the send sequences are built with MessageMeta on MessageData; they are registered with pyrtma.message_def only by explicit 'register' steps, and pyrtma.message._msg_defs is restored after every sequence",
     "near-miss definitions (a field named type_id, type_name, type_hash, type_source, type_def, type_size or hexdump) are expected to be rejected; a rejection is only counted, an acceptance subjects the definition set to (d) and (e)",
     "a well-formed closure the parser rejects (not expected; generator is sound on the reference tree) is counted as inconclusive, acceptance is not this property",
@@ -313,7 +314,10 @@ def compare_outputs(p: G.Program, dg: dict, ext: dict, trace, res: Result = None
             miss = [n for n in want_names if n not in got_names]
             extra = [n for n in got_names if n not in want_names]
             dup = sorted({n for n in got_names if got_names.count(n) > 1})
-            raise Violation(f"output-hash-missing/{lang}", f"{lang} output lists hashes for {len(got_names)} messages, expected one for each of the "
+            key_ = f"output-hash-missing/{lang}"
+            if lang == "c" and miss and not extra and all(p.has(n) and "core_defs" in p.by_name(n).file.split("/")[:-1] for n in miss):
+                key_ += "/definitions-in-a-directory-named-core_defs"
+            raise Violation(key_, f"{lang} output lists hashes for {len(got_names)} messages, expected one for each of the "
                             f"{len(want_names)} messages; missing {miss[:3]}, unexpected {extra[:3]}, repeated {dup[:3]}", trace)
         got = dict(pairs)
         for n in names:
@@ -538,7 +542,10 @@ V1_NAMES = ["V1_PAYLOAD", "V1_EMPTY"]
 REVISIONS = {"REV_A": ["REV_A1", "REV_A2"], "REV_B": ["REV_B1", "REV_B2", "REV_B3"], "CONNECT": ["CONNECT", "SHADOW_CONNECT"],
              "ACKNOWLEDGE": ["ACKNOWLEDGE", "SHADOW_ACK"]}
 REV_NAMES = ["REV_A1", "REV_A2", "REV_B1", "REV_B2", "REV_B3", "SHADOW_CONNECT", "SHADOW_ACK"]
-SIGNAL_IDS = [0, 1234, 9999]
+# send_signal(id): ids of shipped core signal definitions (EXIT, ACKNOWLEDGE, DISCONNECT, LM_EXIT, DATA_LOGGER_START), ids of
+# hand-defined classes (4005 HAND_EMPTY, 4202 REV_B*, 4201 REV_A*: a signal only when registered and payload-free) and ids
+# nobody defines (1234, 9999)
+SIGNAL_IDS = [0, 2, 14, 55, 73, 1234, 9999, 4005, 4202, 4201]
 _POOL = None
 
 
@@ -611,10 +618,26 @@ def run_sequence(timecode: bool, ops: list, res: Result = None):
             warnings.simplefilter("ignore")
             for k, (kind, arg) in enumerate(ops):
                 if kind == "signal":
-                    c.send_signal(int(arg))
+                    holder = pm._msg_defs.get(int(arg))
+                    try:
+                        c.send_signal(int(arg))
+                    except Exception as e:  # noqa
+                        raise Violation(f"send-signal-raised/{type(e).__name__}", f"step #{k + 1}: send_signal({arg}) raised {type(e).__name__}: {str(e)[:120]}", trace)
                     f = HDR.unpack_from(_read(b, hs))
                     if f[0] != int(arg) or f[8] != 0:
                         raise HarnessError(f"unexpected header for send_signal({arg}): {f}")
+                    # a signal DEFINITION known to this process (registered class without payload) has a version hash; the header
+                    # of that signal must carry it whichever call sends it.  Ids without a definition (or whose definition has a
+                    # payload: sending a bare header is the caller's mistake) are don't-cares.
+                    th = getattr(holder, "type_hash", None) if holder is not None else None
+                    if isinstance(th, int) and ctypes.sizeof(holder) == 0:
+                        if f[11] != th:
+                            raise Violation("header-version-not-stamped/send_signal", f"step #{k + 1} (timecode header: {timecode}): send_signal({arg}) put "
+                                            f"{f[11]:#010x} into the version field; id {arg} is the signal definition {holder.__name__} whose type_hash is "
+                                            f"{th:#010x} (send_message({holder.__name__}()) stamps it); before: {[f'{o[0]} {o[1]}' for o in ops[:k]]}", trace)
+                        if res is not None:
+                            res.count("headers-checked/send_signal-of-defined-signal")
+                            res.shape("send_signal", timecode, "core" if int(arg) < 100 else "hand", min(k, 4))
                     continue
                 cls = pool[arg]
                 if kind == "register":
@@ -729,6 +752,11 @@ for n in dir(mod):
         f = struct.unpack_from("<iiddhhhhiiiI", rd(hs)); rd(f[8])
         th = cls.__dict__.get("type_hash", getattr(cls, "type_hash", None))
         out[n[4:]] = {"version": f[11], "msg_type": f[0], "type_hash": th if isinstance(th, int) else repr(th), "type_id": cls.type_id}
+        import ctypes
+        if ctypes.sizeof(cls) == 0 and pyrtma.message._msg_defs.get(cls.type_id) is cls:
+            c.send_signal(cls.type_id)
+            g = struct.unpack_from("<iiddhhhhiiiI", rd(hs)); rd(g[8])
+            out[n[4:]]["signal_version"] = g[11]
 print("RESULT" + json.dumps(out))
 """
 
@@ -778,6 +806,10 @@ def check_generated_stamping(p: G.Program, res: Result = None, timecode: bool = 
                 th = f"{g['type_hash']:#010x}" if isinstance(g["type_hash"], int) else g["type_hash"]
                 raise Violation("header-version-not-stamped", f"send_message(MDF_{n}) of the generated module put {g['version']:#010x} into the "
                                 f"header's version field (class attribute type_hash: {th}); the parser's digest starts with {dg[n][:8]}", trace)
+            if "signal_version" in g and g["signal_version"] != want:
+                raise Violation("header-version-not-stamped/send_signal", f"send_signal({g['type_id']}) for the generated signal definition {n} put "
+                                f"{g['signal_version']:#010x} into the header's version field; the parser's digest starts with {dg[n][:8]} "
+                                f"(send_message(MDF_{n}()) stamps {g['version']:#010x})", trace)
             if res is not None:
                 res.count("headers-checked/generated")
                 res.shape("stamp", "generated", timecode, msg_shape(p, n) if n in user else ("core",))
@@ -808,6 +840,25 @@ def check_nearmiss(p: G.Program, res: Result = None):
     except Violation as v:
         raise Violation(v.key, f"[a definition with a field named {p.expect.get('field')!r} in {p.expect.get('at')} - a reserved name, rejected "
                         f"by the reference compiler - was accepted] {v.what}", {"stamp": "near-miss", "program": p.to_json()})
+
+
+def core_defs_dir_program(core: bool) -> G.Program:
+    """A user closure whose own directories are called ``core_defs`` (like the package's): root imports ./core_defs/extra.yaml,
+    which imports ../lib/core_defs/more.yaml; every message of every file must appear with its hash in all four outputs."""
+    F = G.FieldSpec
+    more = G.FileSpec(path="lib/core_defs/more.yaml", defs=[G.Def("message", "DEEP_SAMPLE", "lib/core_defs/more.yaml", id=1203, fields=[F("a", "double", "double")]),
+                                                            G.Def("signal", "DEEP_SIGNAL", "lib/core_defs/more.yaml", id=1204)])
+    extra = G.FileSpec(path="core_defs/extra.yaml", imports=[["../lib/core_defs/more.yaml", "lib/core_defs/more.yaml"]],
+                       defs=[G.Def("constant", "EXTRA_LEN", "core_defs/extra.yaml", value=4, text="4"),
+                             G.Def("struct", "EXTRA_REC", "core_defs/extra.yaml", fields=[F("v", "int32[EXTRA_LEN]", "int32", 4, "EXTRA_LEN")]),
+                             G.Def("message", "EXTRA_DATA", "core_defs/extra.yaml", id=1201, fields=[F("r", "EXTRA_REC", "EXTRA_REC"), F("d", "DEEP_SAMPLE", "DEEP_SAMPLE")]),
+                             G.Def("signal", "EXTRA_GO", "core_defs/extra.yaml", id=1202)])
+    root = G.FileSpec(path="root.yaml", imports=[["./core_defs/extra.yaml", "core_defs/extra.yaml"]],
+                      defs=[G.Def("message", "ROOT_MSG", "root.yaml", id=1200, fields=[F("e", "EXTRA_DATA", "EXTRA_DATA"), F("n", "uint8[8]", "uint8", 8, "8")])])
+    p = G.Program([root, extra, more], "root.yaml", {"auto_pad": True, "validate_alignment": True, "import_coredefs": core}, "chain", {"dir-core_defs"})
+    if p.problems():
+        raise HarnessError("core_defs directory closure is not well-formed: " + "; ".join(p.problems()[:3]))
+    return p
 
 
 def nearmiss_case(k: int) -> G.Program:
@@ -874,6 +925,10 @@ def shard(idx: int, seed: int, n_meta: int, out_every: int, n_proc: int, n_stamp
             res.count("prefix-cover-closures-compiled")
             for pre in G.TABLE_PREFIXES:
                 res.shape("output-table-prefix", pre, idx == 2)
+        if idx % 4 == 0:
+            res.evaluations += 1
+            check_outputs(core_defs_dir_program(idx == 0), res)
+            res.count("core_defs-directory-closures-compiled")
         if idx < 2 * len(G.RESERVED_FIELD_NAMES):
             res.evaluations += 1
             q = nearmiss_case(idx)
